@@ -690,17 +690,11 @@ func checkExecLoop(c *Ctx) {
 		return
 	}
 	pm := parentMap(fi.Decl.Body)
-	loop, _ := enclosing(pm, pts[0].b.Nodes[pts[0].i], isLoop).(*ast.RangeStmt)
-	if loop == nil {
-		c.Unresolved("R09f", "Execute call in exec is not inside a range loop")
-		return
-	}
-	// X is the files parameter itself
+	// the files parameter
 	var filesParam types.Object
 	if ps := fi.Decl.Type.Params.List; len(ps) >= 2 && len(ps[len(ps)-1].Names) == 1 {
 		filesParam = info.ObjectOf(ps[len(ps)-1].Names[0])
 	}
-	x, _ := loop.X.(*ast.Ident)
 	paramWritten := false
 	ast.Inspect(fi.Decl.Body, func(m ast.Node) bool {
 		for _, l := range writesIn(m) {
@@ -710,16 +704,60 @@ func checkExecLoop(c *Ctx) {
 		}
 		return true
 	})
-	c.Check("R09f", "exec|range files", loop.Pos(), x != nil && filesParam != nil && info.ObjectOf(x) == filesParam && !paramWritten, "exec must range over its files parameter unmodified (got %s)", types.ExprString(loop.X))
 	call := nodeHasCall(info, pts[0].b.Nodes[pts[0].i], isCallTo(pMigrate, "Executor", "Execute"))
-	val, _ := loop.Value.(*ast.Ident)
-	argOK := false
-	if val != nil && len(call.Args) == 2 {
-		if a, ok := call.Args[1].(*ast.Ident); ok && info.ObjectOf(a) == info.ObjectOf(val) {
-			argOK = true
-		}
+	isParam := func(e ast.Expr) bool {
+		id, ok := ast.Unparen(e).(*ast.Ident)
+		return ok && filesParam != nil && info.ObjectOf(id) == filesParam
 	}
-	c.Check("R09f", "exec|Execute(loopvar)", call.Pos(), argOK, "Execute must be called with the loop variable")
+	rangeOK, argOK := false, false
+	var loopPos token.Pos
+	switch loop := enclosing(pm, pts[0].b.Nodes[pts[0].i], isLoop).(type) {
+	case *ast.RangeStmt:
+		loopPos = loop.Pos()
+		rangeOK = isParam(loop.X)
+		if len(call.Args) == 2 {
+			switch a := ast.Unparen(call.Args[1]).(type) {
+			case *ast.Ident: // the loop value
+				if v, ok := loop.Value.(*ast.Ident); ok && info.ObjectOf(a) == info.ObjectOf(v) {
+					argOK = true
+				}
+			case *ast.IndexExpr: // files[i] with the loop key
+				if k, ok := loop.Key.(*ast.Ident); ok && isParam(a.X) {
+					if i, ok := ast.Unparen(a.Index).(*ast.Ident); ok && info.ObjectOf(i) == info.ObjectOf(k) {
+						argOK = true
+					}
+				}
+			}
+		}
+	case *ast.ForStmt:
+		// for i := 0; i < len(files); i++ { … Execute(ctx, files[i]) … } with i untouched in the body
+		loopPos = loop.Pos()
+		if counted(info, loop) {
+			init := loop.Init.(*ast.AssignStmt)
+			iv := info.ObjectOf(init.Lhs[0].(*ast.Ident))
+			zero := false
+			if tv := info.Types[init.Rhs[0]]; tv.Value != nil && tv.Value.String() == "0" {
+				zero = true
+			}
+			cond := loop.Cond.(*ast.BinaryExpr)
+			inc := loop.Post.(*ast.IncDecStmt)
+			if a := lenArg(info, ast.Unparen(cond.Y)); a != nil && isParam(a) && cond.Op == token.LSS && zero && inc.Tok == token.INC {
+				rangeOK = true
+			}
+			if len(call.Args) == 2 {
+				if a, ok := ast.Unparen(call.Args[1]).(*ast.IndexExpr); ok && isParam(a.X) {
+					if i, ok := ast.Unparen(a.Index).(*ast.Ident); ok && info.ObjectOf(i) == iv {
+						argOK = true
+					}
+				}
+			}
+		}
+	default:
+		c.Unresolved("R09f", "Execute call in exec is not inside a loop over the files")
+		return
+	}
+	c.Check("R09f", "exec|range files", loopPos, rangeOK && !paramWritten, "exec must visit every element of its files parameter, unmodified and in order")
+	c.Check("R09f", "exec|Execute(loopvar)", call.Pos(), argOK, "Execute must be called with the current element of the loop")
 	errB, _, _, shapeOK := f.errBranch(pts[0])
 	if !shapeOK {
 		c.Unresolved("R09f", "error check following Execute in exec")
@@ -773,40 +811,54 @@ func runC12(c *Ctx) {
 	}
 	for _, hp := range hce {
 		node := hp.b.Nodes[hp.i]
-		loop, _ := enclosing(s.pm, node, isLoop).(*ast.ForStmt)
-		if loop == nil {
-			c.Unresolved("R12b", "HistoryChangedError is not constructed inside a for loop")
-			continue
-		}
-		// loop shape
+		lnode := enclosing(s.pm, node, isLoop)
 		var iv types.Object
-		if as, ok := loop.Init.(*ast.AssignStmt); ok && len(as.Lhs) == 1 && len(as.Rhs) == 1 {
-			if id, ok := as.Lhs[0].(*ast.Ident); ok {
-				if tv := info.Types[as.Rhs[0]]; tv.Value != nil && tv.Value.String() == "0" {
-					iv = info.ObjectOf(id)
+		var loopBody *ast.BlockStmt
+		var loopCond ast.Node
+		var loopPos token.Pos
+		covers := false
+		switch loop := lnode.(type) {
+		case *ast.ForStmt:
+			loopBody, loopCond, loopPos = loop.Body, loop.Cond, loop.Pos()
+			if as, ok := loop.Init.(*ast.AssignStmt); ok && len(as.Lhs) == 1 && len(as.Rhs) == 1 {
+				if id, ok := as.Lhs[0].(*ast.Ident); ok {
+					if tv := info.Types[as.Rhs[0]]; tv.Value != nil && tv.Value.String() == "0" {
+						iv = info.ObjectOf(id)
+					}
 				}
 			}
-		}
-		condOK := false
-		if be, ok := loop.Cond.(*ast.BinaryExpr); ok && be.Op == token.LSS && iv != nil {
-			if id, ok := be.X.(*ast.Ident); ok && info.ObjectOf(id) == iv && isField(info, be.Y, pMigrate, "Revision", "Applied") {
-				condOK = true
+			condOK := false
+			if be, ok := loop.Cond.(*ast.BinaryExpr); ok && be.Op == token.LSS && iv != nil {
+				if id, ok := be.X.(*ast.Ident); ok && info.ObjectOf(id) == iv && isField(info, be.Y, pMigrate, "Revision", "Applied") {
+					condOK = true
+				}
 			}
-		}
-		postOK := false
-		if inc, ok := loop.Post.(*ast.IncDecStmt); ok && inc.Tok == token.INC {
-			if id, ok := inc.X.(*ast.Ident); ok && info.ObjectOf(id) == iv {
-				postOK = true
+			postOK := false
+			if inc, ok := loop.Post.(*ast.IncDecStmt); ok && inc.Tok == token.INC {
+				if id, ok := inc.X.(*ast.Ident); ok && info.ObjectOf(id) == iv {
+					postOK = true
+				}
 			}
+			covers = iv != nil && condOK && postOK
+		case *ast.RangeStmt:
+			// for i := range r.Applied (range over an integer: 0 … Applied-1)
+			loopBody, loopCond, loopPos = loop.Body, loop.X, loop.Pos()
+			if id, ok := loop.Key.(*ast.Ident); ok && loop.Value == nil && isField(info, loop.X, pMigrate, "Revision", "Applied") {
+				iv = info.ObjectOf(id)
+				covers = true
+			}
+		default:
+			c.Unresolved("R12b", "HistoryChangedError is not constructed inside a loop over the applied statements")
+			continue
 		}
-		c.Check("R12b", "Execute|compare-loop covers [0,Applied)", loop.Pos(), iv != nil && condOK && postOK, "the comparison loop must be `for i := 0; i < r.Applied; i++`")
+		c.Check("R12b", "Execute|compare-loop covers [0,Applied)", loopPos, covers, "the comparison loop must visit every index 0 … r.Applied-1 (for i := 0; i < r.Applied; i++, or for i := range r.Applied)")
 		// the guarding if: condition mentions sums[i] and PartialHashes[i] with i == iv
 		// the comparison: some condition in the loop body mentions sums[i] and PartialHashes[i] with i == iv
 		// (the mismatch branch may be the then-branch of `!=` or the fall-through after `== … continue`)
 		sameIdx, prefix := false, ""
 		if iv != nil {
 			var sumsIdx, phIdx bool
-			ast.Inspect(loop.Body, func(m ast.Node) bool {
+			ast.Inspect(loopBody, func(m ast.Node) bool {
 				switch x := m.(type) {
 				case *ast.IndexExpr:
 					id, ok := x.Index.(*ast.Ident)
@@ -844,7 +896,7 @@ func runC12(c *Ctx) {
 		c.Check("R12b", "Execute|hash prefix agreement", node.Pos(), prefix == appPrefix, "the prefix trimmed before comparing (%q) differs from the prefix prepended when recording (%q)", prefix, appPrefix)
 
 		// dominance: entry -> ExecContext must pass the loop condition, except via the false edge of `Applied > 0`
-		isLoopCond := func(n ast.Node) bool { return n == ast.Node(loop.Cond) }
+		isLoopCond := func(n ast.Node) bool { return n == loopCond }
 		bypass := func(b *cfg.Block, si int) bool {
 			// the edge on which `r.Applied > 0` (or != 0) is false: nothing was applied
 			return edgeImplies(b, si, func(e ast.Expr, val bool) bool {
@@ -857,7 +909,7 @@ func runC12(c *Ctx) {
 			})
 		}
 		n, found := f.reachEx([]point{f.entry()}, isLoopCond, s.isExec, bypass)
-		c.Check("R12b", "Execute|compare≺ExecContext", nodePos(n, loop.Pos()), !found, "ExecContext at %s is reachable without the applied prefix having been compared", c.nodeAt(n))
+		c.Check("R12b", "Execute|compare≺ExecContext", nodePos(n, loopPos), !found, "ExecContext at %s is reachable without the applied prefix having been compared", c.nodeAt(n))
 		// the loop exits only when i >= Applied, or by returning: no break out of the loop to the statement loop
 		n, found = f.reach([]point{after(hp)}, nil, s.isExec, false)
 		c.Check("R12c", "Execute|HistoryChanged→no ExecContext", nodePos(n, node.Pos()), !found, "ExecContext at %s is reachable after the history mismatch was detected", c.nodeAt(n))
@@ -878,13 +930,48 @@ func guardedIndexLint(c *Ctx, rule string) {
 	c.AllFuncs(false, func(fi *FuncInfo) {
 		info := fi.Info()
 		ast.Inspect(fi.Decl.Body, func(n ast.Node) bool {
+			// `case A, B:` of a switch without tag evaluates A, then B: the same short-circuit as A || B
+			if cc, isCase := n.(*ast.CaseClause); isCase && len(cc.List) >= 2 {
+				if sw, isSw := enclosingSwitch(fi, cc); isSw && sw.Tag == nil {
+					for i := 0; i+1 < len(cc.List); i++ {
+						synth := &ast.BinaryExpr{X: cc.List[i], Op: token.LOR, Y: cc.List[i+1], OpPos: cc.List[i].End()}
+						guardedIndexOne(c, rule, fi, info, synth, cc.List[i].Pos())
+					}
+				}
+				return true
+			}
 			be, ok := n.(*ast.BinaryExpr)
 			if !ok || (be.Op != token.LOR && be.Op != token.LAND) {
 				return true
 			}
-			g, ok := be.X.(*ast.BinaryExpr)
+			guardedIndexOne(c, rule, fi, info, be, be.Pos())
+			return true
+		})
+	})
+}
+
+// enclosingSwitch returns the switch statement a case clause belongs to.
+func enclosingSwitch(fi *FuncInfo, cc *ast.CaseClause) (*ast.SwitchStmt, bool) {
+	var out *ast.SwitchStmt
+	ast.Inspect(fi.Decl.Body, func(m ast.Node) bool {
+		if sw, ok := m.(*ast.SwitchStmt); ok {
+			for _, cl := range sw.Body.List {
+				if cl == ast.Stmt(cc) {
+					out = sw
+				}
+			}
+		}
+		return out == nil
+	})
+	return out, out != nil
+}
+
+func guardedIndexOne(c *Ctx, rule string, fi *FuncInfo, info *types.Info, be *ast.BinaryExpr, pos token.Pos) {
+	{
+		{
+			g, ok := ast.Unparen(be.X).(*ast.BinaryExpr)
 			if !ok {
-				return true
+				return
 			}
 			// G: i <op> len(a)  or  len(a) <op> i
 			var idx ast.Expr
@@ -896,7 +983,7 @@ func guardedIndexLint(c *Ctx, rule string) {
 				idx, arr = g.Y, a
 				op = flipOp(op)
 			} else {
-				return true
+				return
 			}
 			idxS, arrS := types.ExprString(idx), types.ExprString(arr)
 			// does the right operand index arr with idx ?
@@ -908,7 +995,7 @@ func guardedIndexLint(c *Ctx, rule string) {
 				return true
 			})
 			if !used {
-				return true
+				return
 			}
 			// fall-through of G: for ||, G false; for &&, G true.
 			var ok2 bool
@@ -933,10 +1020,9 @@ func guardedIndexLint(c *Ctx, rule string) {
 			} else {
 				ok2 = op == token.LSS
 			}
-			c.Check(rule, fi.Name+"|"+arrS+"["+idxS+"]", be.Pos(), ok2, "the guard `%s` does not make %s[%s] in range on its fall-through (off by one)", types.ExprString(g), arrS, idxS)
-			return true
-		})
-	})
+			c.Check(rule, fi.Name+"|"+arrS+"["+idxS+"]", pos, ok2, "the guard `%s` does not make %s[%s] in range on its fall-through (off by one)", types.ExprString(g), arrS, idxS)
+		}
+	}
 }
 
 func lenArg(info *types.Info, e ast.Expr) ast.Expr {
